@@ -9,6 +9,7 @@ Also extracts from ford/output.py whether the environment is created with autoes
 from __future__ import annotations
 
 import ast
+import re
 from pathlib import Path
 
 from harness import common
@@ -176,6 +177,218 @@ def extract_cleanup_steps(repo: Path):
     return res
 
 
+def extract_proc_prefixes(repo: Path):
+    """`_list_of_procedure_attributes` (ford/sourceform.py): the table of prefix keywords of a procedure
+    statement *in the order in which the loop tries them*, and how a keyword is recognised:
+      byword=False  `if attribute in attribute_string` (substring test) + `re.sub(attribute, "", ...)`
+      byword=True   the prefix is split by `paren_split(" ", ...)` and `attribute in words` is list membership
+                    (fixes/C18-prefix-keyword-inside-type-spec.diff)
+    Anything else raises (tie broken).  Returns (keywords, byword)."""
+    tree = ast.parse((repo / "ford" / "sourceform.py").read_text())
+    fn = next((n for n in tree.body if isinstance(n, ast.FunctionDef) and n.name == "_list_of_procedure_attributes"), None)
+    if fn is None:
+        raise RuntimeError("sourceform.py: _list_of_procedure_attributes not found")
+    if len(fn.args.args) != 1:
+        raise RuntimeError("sourceform.py: _list_of_procedure_attributes: unexpected signature")
+    param = fn.args.args[0].arg
+    consts = {}
+    for n in tree.body:  # module-level tables: NAME = ("a", "b", ...)
+        tgt = val = None
+        if isinstance(n, ast.Assign) and len(n.targets) == 1 and isinstance(n.targets[0], ast.Name):
+            tgt, val = n.targets[0].id, n.value
+        elif isinstance(n, ast.AnnAssign) and isinstance(n.target, ast.Name) and n.value is not None:
+            tgt, val = n.target.id, n.value
+        if tgt and isinstance(val, (ast.List, ast.Tuple)) and val.elts and \
+                all(isinstance(e, ast.Constant) and isinstance(e.value, str) for e in val.elts):
+            consts[tgt] = [e.value for e in val.elts]
+    body = [st for st in fn.body if not (isinstance(st, ast.Expr) and isinstance(st.value, ast.Constant))]
+    texts = [ast.unparse(st) for st in body]
+    loops = [st for st in body if isinstance(st, ast.For)]
+    if len(loops) != 1 or not isinstance(loops[0].target, ast.Name):
+        raise RuntimeError("_list_of_procedure_attributes: expected exactly one `for <name> in <table>` loop")
+    loop = loops[0]
+    var = loop.target.id
+    it = loop.iter
+    if isinstance(it, (ast.List, ast.Tuple)) and all(isinstance(e, ast.Constant) and isinstance(e.value, str) for e in it.elts):
+        table = [e.value for e in it.elts]
+    elif isinstance(it, ast.Name) and it.id in consts:
+        table = consts[it.id]
+    else:
+        raise RuntimeError(f"_list_of_procedure_attributes: cannot read the keyword table from {ast.unparse(it)[:80]!r}")
+    import re as _re
+    for k in table:
+        if not _re.fullmatch(r"[a-z_]+", k):
+            raise RuntimeError(f"_list_of_procedure_attributes: keyword {k!r} is not a lower-case word (the model reads "
+                               "`re.sub(keyword, ...)` as a literal pattern on a lower-cased string)")
+    if len(loop.body) != 1 or not isinstance(loop.body[0], ast.If) or loop.body[0].orelse or loop.orelse:
+        raise RuntimeError("_list_of_procedure_attributes: the loop body is not a single `if`")
+    cond = loop.body[0]
+    t = cond.test
+    if not (isinstance(t, ast.Compare) and isinstance(t.left, ast.Name) and t.left.id == var and len(t.ops) == 1
+            and isinstance(t.ops[0], ast.In) and isinstance(t.comparators[0], ast.Name)):
+        raise RuntimeError(f"_list_of_procedure_attributes: unexpected test {ast.unparse(t)[:80]!r}")
+    hay = t.comparators[0].id
+    inner = [ast.unparse(x) for x in cond.body]
+    if len(inner) != 2 or inner[0] != f"attribute_list.append({var})":
+        raise RuntimeError(f"_list_of_procedure_attributes: unexpected body of the `if`: {inner!r}")
+    head = [f"if not {param}:\n    return ([], '')", "attribute_list = []"]
+    sub_forms = (
+        head + [f"{param} = {param}.lower()"],
+        f"{hay} = re.sub({var}, '', {hay}, flags=re.IGNORECASE)",
+        f"return (attribute_list, {hay}.replace(' ', ''))",
+    )
+    word_forms = (
+        head + [f"{hay} = ford.utils.paren_split(' ', {param}.lower().replace('\\t', ' '))"],
+        None,
+        f"return (attribute_list, ''.join({hay}).replace(' ', ''))",
+    )
+    pre, post = texts[:body.index(loop)], texts[body.index(loop) + 1:]
+    if hay == param and pre == sub_forms[0] and inner[1] == sub_forms[1] and post == [sub_forms[2]]:
+        return table, False
+    m = _re.fullmatch(rf"{hay} = \[(\w+) for \1 in {hay} if \1 != {var}\]", inner[1])
+    if hay != param and pre == word_forms[0] and m and post == [word_forms[2]]:
+        return table, True
+    raise RuntimeError("_list_of_procedure_attributes: neither the substring form nor the word form: "
+                       f"before the loop {pre!r}, in the `if` {inner!r}, after {post!r}")
+
+
+def extract_shape_branch(repo: Path):
+    """`process_attribs` (FortranCodeUnit and FortranBlockData): the branch that splits `allocatable(:)` /
+    `pointer(..)` / `target(..)` recorded by an ALLOCATABLE / POINTER / TARGET statement into the attribute and the
+    array spec.  Returns (keywords of the `or` chain in source order, keeps): keeps=False `var.dimension = attr[i:]`
+    (what the declaration wrote behind the name is overwritten), keeps=True the repaired form
+    (fixes/C18-shape-statement-keeps-length.diff).  Both copies of the loop must agree."""
+    tree = ast.parse((repo / "ford" / "sourceform.py").read_text())
+    classes = _class_defs(tree)
+    found = []
+    for cname in ("FortranCodeUnit", "FortranBlockData"):
+        fn = _method(classes.get(cname, ast.ClassDef(name=cname, body=[])), "process_attribs")
+        if fn is None:
+            raise RuntimeError(f"sourceform.py: {cname}.process_attribs not found")
+        hits = []
+        for node in ast.walk(fn):
+            if isinstance(node, ast.If) and isinstance(node.test, ast.BoolOp) and isinstance(node.test.op, ast.And) \
+                    and ast.unparse(node.test.values[0]) == "DIM_RE.match(attr)":
+                hits.append(node)
+        if len(hits) != 1 or len(hits[0].test.values) != 2:
+            raise RuntimeError(f"{cname}.process_attribs: the DIM_RE branch was not found once")
+        node = hits[0]
+        alt = node.test.values[1]
+        if not (isinstance(alt, ast.BoolOp) and isinstance(alt.op, ast.Or)):
+            raise RuntimeError(f"{cname}.process_attribs: unexpected DIM_RE condition {ast.unparse(node.test)[:90]!r}")
+        kws = []
+        for c in alt.values:
+            if not (isinstance(c, ast.Compare) and isinstance(c.left, ast.Constant) and isinstance(c.left.value, str)
+                    and len(c.ops) == 1 and isinstance(c.ops[0], ast.In) and ast.unparse(c.comparators[0]) == "attr"):
+                raise RuntimeError(f"{cname}.process_attribs: unexpected DIM_RE condition {ast.unparse(node.test)[:90]!r}")
+            kws.append(c.left.value)
+        body = [ast.unparse(x) for x in node.body]
+        head = ["i = attr.index('(')", "var.attribs.append(attr[0:i])"]
+        if body == head + ["var.dimension = attr[i:]"]:
+            keeps = False
+        elif body == head + ["kept = '' if var.dimension.startswith('(') else var.dimension", "var.dimension = attr[i:] + kept"]:
+            keeps = True
+        else:
+            raise RuntimeError(f"{cname}.process_attribs: unexpected body of the DIM_RE branch: {body!r}")
+        found.append((kws, keeps))
+    if found[0] != found[1]:
+        raise RuntimeError(f"process_attribs: FortranCodeUnit and FortranBlockData disagree: {found!r}")
+    return found[0]
+
+
+SHAPE: dict = {}  # filled by translate(): {"keywords": [...], "keeps": bool}
+
+
+def check_function_initialize(repo: Path):
+    """`FortranFunction._initialize`: the left-over of the prefix goes to `parse_type` with only ValueError
+    suppressed (what `ProcPrefix.resultTypeOf` models)"""
+    tree = ast.parse((repo / "ford" / "sourceform.py").read_text())
+    cls = _class_defs(tree).get("FortranFunction")
+    fn = _method(cls, "_initialize") if cls else None
+    text = ast.unparse(fn) if fn else ""
+    for need in ("attribstr = self._procedure_initialize(**line.groupdict())", "with suppress(ValueError):",
+                 "parse_type(attribstr, self.strings, self.settings.extra_vartypes)",
+                 "self.retvar = line['result'] or self.name"):
+        if need not in text:
+            raise RuntimeError(f"FortranFunction._initialize: expected {need!r}")
+    cls = _class_defs(tree).get("FortranProcedure")
+    fn = _method(cls, "_procedure_initialize") if cls else None
+    text = ast.unparse(fn) if fn else ""
+    for need in ("self.attribs, attribstr = _list_of_procedure_attributes(attributes)",
+                 "self.args = [arg for arg in self.SPLIT_RE.split(arguments[1:-1].strip()) if arg]"):
+        if need not in text:
+            raise RuntimeError(f"FortranProcedure._procedure_initialize: expected {need!r}")
+
+
+def extract_decl_attr_rules(repo: Path):
+    """`line_to_variables` (ford/sourceform.py): the if-chain that turns an attribute of a type declaration into a
+    field of the variable (`permission`, `optional`, `parameter`, `intent`); everything else is kept in `attribs` as
+    written.  Returns [(keyword, action)] in source order, action in {"permission", "optional", "parameter",
+    ("intent", value)}.  An unrecognised shape raises (tie broken)."""
+    tree = ast.parse((repo / "ford" / "sourceform.py").read_text())
+    fn = next((n for n in tree.body if isinstance(n, ast.FunctionDef) and n.name == "line_to_variables"), None)
+    if fn is None:
+        raise RuntimeError("sourceform.py: line_to_variables not found")
+    text = ast.unparse(fn)
+    for need in ("parsed_type = parse_type(line, parent.strings, parent.settings.extra_vartypes)",
+                 "if (attribmatch := ATTRIBSPLIT_RE.match(parsed_type.rest)):",
+                 "attribstr = attribmatch.group(1).strip()", "declarestr = attribmatch.group(2).strip()",
+                 "tmp_attribs = [attr.strip() for attr in ford.utils.paren_split(',', attribstr)]",
+                 "declarestr = ATTRIBSPLIT2_RE.match(parsed_type.rest).group(2)",
+                 "declarations = ford.utils.paren_split(',', declarestr)", "permission = inherit_permission"):
+        if need not in text:
+            raise RuntimeError(f"line_to_variables: expected {need!r}")
+    loops = [n for n in ast.walk(fn) if isinstance(n, ast.For) and ast.unparse(n.iter) == "tmp_attribs"]
+    if len(loops) != 1 or not isinstance(loops[0].target, ast.Name):
+        raise RuntimeError("line_to_variables: the loop over tmp_attribs was not found")
+    loop = loops[0]
+    var = loop.target.id
+    body = [st for st in loop.body if not (isinstance(st, ast.Expr) and isinstance(st.value, ast.Constant))]
+    if len(body) != 2 or ast.unparse(body[0]) != f"{var}_lower = {var}.lower().replace(' ', '')" or not isinstance(body[1], ast.If):
+        raise RuntimeError(f"line_to_variables: unexpected body of the attribute loop: {[ast.unparse(b)[:60] for b in body]}")
+    key = f"{var}_lower"
+    rules = []
+    node = body[1]
+    while True:
+        t = node.test
+        if not (isinstance(t, ast.Compare) and isinstance(t.left, ast.Name) and t.left.id == key and len(t.ops) == 1):
+            raise RuntimeError(f"line_to_variables: unexpected test {ast.unparse(t)[:80]!r}")
+        cmp_ = t.comparators[0]
+        if isinstance(t.ops[0], ast.In) and isinstance(cmp_, (ast.List, ast.Tuple)) and \
+                all(isinstance(e, ast.Constant) and isinstance(e.value, str) for e in cmp_.elts):
+            kws = [e.value for e in cmp_.elts]
+        elif isinstance(t.ops[0], ast.Eq) and isinstance(cmp_, ast.Constant) and isinstance(cmp_.value, str):
+            kws = [cmp_.value]
+        else:
+            raise RuntimeError(f"line_to_variables: unexpected test {ast.unparse(t)[:80]!r}")
+        act = [ast.unparse(x) for x in node.body]
+        if act == [f"permission = {key}"]:
+            action = "permission"
+        elif act == ["optional = True"]:
+            action = "optional"
+        elif act == ["parameter = True"]:
+            action = "parameter"
+        elif len(act) == 1 and (m := re.fullmatch(r"intent = '(\w+)'", act[0])):
+            action = ("intent", m.group(1))
+        else:
+            raise RuntimeError(f"line_to_variables: unexpected action {act!r} for {kws!r}")
+        for k in kws:
+            if k != k.lower().replace(" ", ""):
+                raise RuntimeError(f"line_to_variables: keyword {k!r} can never equal a lower-cased, blank-free attribute")
+            rules.append((k, action))
+        if len(node.orelse) == 1 and isinstance(node.orelse[0], ast.If):
+            node = node.orelse[0]
+            continue
+        if [ast.unparse(x) for x in node.orelse] != [f"attribs.append({var})"]:
+            raise RuntimeError(f"line_to_variables: the final else is not `attribs.append({var})`: {[ast.unparse(x) for x in node.orelse]!r}")
+        break
+    return rules
+
+
+DECL_RULES: list = []  # filled by translate()
+
+PREFIX: dict = {}  # filled by translate(): {"table": [...], "byword": bool}
+
 CLEANUP: dict = {}  # filled by translate(): the step orders last written
 
 
@@ -194,15 +407,36 @@ def translate():
     steps = extract_cleanup_steps(repo)
     if not EXTERNAL_CI or any(x != EXTERNAL_CI[0] for x in EXTERNAL_CI):
         raise RuntimeError(f"sourceform.py: the `external` filter of _cleanup was not found in one form: {EXTERNAL_CI}")
+    shape_kws, shape_keeps = extract_shape_branch(repo)
+    SHAPE.clear()
+    SHAPE.update(keywords=list(shape_kws), keeps=shape_keeps)
     common.write_if_changed(
         common.LEAN / "FordModel" / "Generated" / "C18Cfg.lean",
         "/- GENERATED by translate/c18.py from ford/sourceform.py - do not edit -/\n"
         "namespace Ford.Generated.C18Cfg\n\n"
         "/-- the `external` filter of `_cleanup` compares the attribute in lower case -/\n"
         f"def externalCI : Bool := {'true' if EXTERNAL_CI[0] else 'false'}\n\n"
+        "/-- `process_attribs`: the keywords of the branch `DIM_RE.match(attr) and (\"pointer\" in attr or ...)`, in source order -/\n"
+        "def shapeStmtKeywords : List (List Char) := ["
+        + ", ".join("[" + ", ".join("'" + c + "'" for c in k) + "]" for k in shape_kws) + "]\n\n"
+        "/-- ... and whether that branch keeps what the declaration wrote behind the name (`c*(80)`) -/\n"
+        f"def shapeKeepsLength : Bool := {'true' if shape_keeps else 'false'}\n\n"
         "end Ford.Generated.C18Cfg\n")
     CLEANUP.clear()
     CLEANUP.update(steps)
+    table, byword = extract_proc_prefixes(repo)
+    check_function_initialize(repo)
+    PREFIX.clear()
+    PREFIX.update(table=list(table), byword=byword)
+    rules = extract_decl_attr_rules(repo)
+    DECL_RULES.clear()
+    DECL_RULES.extend(rules)
+
+    def action(a):
+        return "." + a if isinstance(a, str) else f".{a[0]} " + chars(a[1])
+
+    def chars(k):
+        return "[" + ", ".join("'" + c + "'" for c in k) + "]"
 
     def step_list(k):
         return "[" + ", ".join("." + x for x in steps[k]) + "]"
@@ -211,6 +445,7 @@ def translate():
         "/- GENERATED by translate/c18.py from ford/templates/*.html, ford/output.py and ford/sourceform.py - do not edit -/",
         "import FordModel.Escape",
         "import FordModel.AttrStmt",
+        "import FordModel.DeclLine",
         "namespace Ford.Generated.C18",
         "open Ford.Html",
         "",
@@ -219,6 +454,16 @@ def translate():
         f"def unitCleanupSteps : List Ford.AttrStmt.CleanStep := {step_list('unit')}",
         f"def procCleanupSteps : List Ford.AttrStmt.CleanStep := {step_list('proc')}",
         f"def funcCleanupSteps : List Ford.AttrStmt.CleanStep := {step_list('func')}",
+        "",
+        "/-- the prefix keywords of `_list_of_procedure_attributes` (ford/sourceform.py) in the order in which the loop",
+        "    tries them, and how a keyword is recognised (false: substring test + re.sub; true: one of the words of the",
+        "    prefix split at blanks outside parentheses) -/",
+        "def procPrefixes : List (List Char) := [" + ", ".join(chars(k) for k in table) + "]",
+        f"def prefixByWord : Bool := {'true' if byword else 'false'}",
+        "",
+        "/-- the if-chain of the attribute loop of `line_to_variables` (ford/sourceform.py) in source order: the attribute",
+        "    (lower-cased, blanks removed) and the field it is turned into; every other attribute is kept as written -/",
+        "def declAttrRules : Ford.DeclLine.Rules := [" + ", ".join(f"({chars(k)}, {action(a)})" for k, a in rules) + "]",
         "",
         f"def autoescape : Bool := {'true' if auto else 'false'}",
         "",
